@@ -202,7 +202,7 @@ def main(tier, seed):
         if t not in seen:
             seen.add(t)
             jobs.append({"id": f"d1-{len(jobs):05d}", "prog": p})
-    for p in G.depth2(full=(tier != "quick")) + G.extension_programs() + G.reflected_programs():
+    for p in G.depth2(full=(tier != "quick")) + G.extension_programs() + G.reflected_programs() + G.proxy_programs():
         t = G.show(p)
         if t not in seen:
             seen.add(t)
